@@ -645,37 +645,64 @@ func c12Anchor(c *Ctx, p *core.Prog, m *parserModel) {
 				}
 			case "TokenType", "Literal":
 				keys = append(keys, f)
-				// value must derive from tokens[snap] and the block must be guarded by snap < len(tokens)
-				okIdx := false
-				var walk func(v ssa.Value, d int)
-				walk = func(v ssa.Value, d int) {
+				// value must derive from tokens[snap], read under snap < len(tokens); a value assembled in a local first
+				// (`var lit string; if start < len(tokens) { lit = tokens[start].Literal }`) arrives as a phi whose other
+				// edges are constants
+				guardedBlock := func(b *ssa.BasicBlock) bool {
+					for _, cd := range core.ControlDeps(b) {
+						if bo, ok := cd.If.Cond.(*ssa.BinOp); ok && bo.Op == token.LSS && bo.X == snap && core.LenOf(bo.Y) != nil && cd.Succ == 0 {
+							return true
+						}
+					}
+					return false
+				}
+				var idxBlock func(v ssa.Value, d int) *ssa.BasicBlock
+				idxBlock = func(v ssa.Value, d int) *ssa.BasicBlock {
 					if d > 8 || v == nil {
-						return
+						return nil
 					}
 					switch x := v.(type) {
 					case *ssa.IndexAddr:
 						if x.Index == snap {
-							okIdx = true
+							return x.Block()
 						}
 					case *ssa.UnOp:
-						walk(x.X, d+1)
+						return idxBlock(x.X, d+1)
 					case *ssa.FieldAddr:
-						walk(x.X, d+1)
+						return idxBlock(x.X, d+1)
 					case *ssa.Field:
-						walk(x.X, d+1)
+						return idxBlock(x.X, d+1)
 					case *ssa.Call:
 						for _, a := range x.Call.Args {
-							walk(a, d+1)
+							if b := idxBlock(a, d+1); b != nil {
+								return b
+							}
 						}
 					}
+					return nil
 				}
-				walk(st.Val, 0)
-				guarded := false
-				for _, cd := range core.ControlDeps(b) {
-					if bo, ok := cd.If.Cond.(*ssa.BinOp); ok && bo.Op == token.LSS && bo.X == snap && core.LenOf(bo.Y) != nil && cd.Succ == 0 {
-						guarded = true
+				okIdx, guarded := true, true
+				var judge func(v ssa.Value, d int)
+				judge = func(v ssa.Value, d int) {
+					if ph, isPhi := v.(*ssa.Phi); isPhi && d < 4 {
+						for _, e := range ph.Edges {
+							if _, isC := e.(*ssa.Const); isC {
+								continue
+							}
+							judge(e, d+1)
+						}
+						return
+					}
+					ib := idxBlock(v, 0)
+					if ib == nil {
+						okIdx = false
+						return
+					}
+					if !guardedBlock(ib) {
+						guarded = false
 					}
 				}
+				judge(st.Val, 0)
 				switch {
 				case okIdx && guarded:
 					r.OK("error-anchor", "ParseError."+f, p.Pos(st.Pos()), "tokens[start] under start < len(tokens)")
